@@ -30,6 +30,20 @@ func NewRawHTTPResponder(writer io.Writer) *RawHTTPResponder {
 	}
 }
 
+// Like NewRawHTTPResponder, for the response to one specific request.
+// Knowing the request lets the response be framed correctly when it must not
+// carry a body (HEAD).
+func NewRawHTTPResponderFor(writer io.Writer, req *http.Request) *RawHTTPResponder {
+	c := NewRawHTTPResponder(writer)
+	c.response.Request = req
+	return c
+}
+
+// Reports whether a response with the given status code can have a body (RFC 9110, section 6.4.1).
+func bodyAllowedForStatus(status int) bool {
+	return !(status >= 100 && status <= 199) && status != http.StatusNoContent && status != http.StatusNotModified
+}
+
 func (c *RawHTTPResponder) parseAndSetContentLength() error {
 	header := c.response.Header
 
@@ -68,8 +82,14 @@ func (c *RawHTTPResponder) GetHeaders() http.Header {
 
 func (c *RawHTTPResponder) writeResponse() error {
 	// If Content-Length is unknown, we must either use chunked encoding or close the connection.
+	// Responses that cannot have a body (1xx, 204, 304) end after the header block instead:
+	// a chunk terminator after them would be read as the start of the next response.
 	if c.response.ContentLength < 0 {
-		c.response.TransferEncoding = []string{"chunked"}
+		if bodyAllowedForStatus(c.response.StatusCode) {
+			c.response.TransferEncoding = []string{"chunked"}
+		} else {
+			c.response.ContentLength = 0
+		}
 	}
 
 	if err := c.response.Write(c.writer); err != nil {
